@@ -113,7 +113,44 @@ def detect(patch, prop, tier="quick", seed="1"):
         shutil.rmtree(os.path.join(VERIF, "findings"), ignore_errors=True)
 
 
+def recheck(ids=None):
+    """Re-run every kept change against the repository as it is now (it has
+    been repaired many times since the changes were written): does the patch
+    still apply, does the demonstration still fail with it, is it detected."""
+    head = subprocess.run(["git", "-C", REPO, "rev-parse", "--short", "HEAD"],
+                          capture_output=True, text=True).stdout.strip()
+    base = os.path.join(VERIF, "seeded")
+    for sid in sorted(os.listdir(base)):
+        if ids and sid not in ids:
+            continue
+        d = os.path.join(base, sid)
+        mp = os.path.join(d, "meta.json")
+        meta = json.load(open(mp))
+        patch = os.path.join(d, "patch.diff")
+        rec = {"repo_head": head}
+        try:
+            tmp, dst = scratch(patch)
+            shutil.rmtree(tmp, ignore_errors=True)
+            rec["applies"] = True
+        except SystemExit:
+            rec["applies"] = False
+        if rec["applies"]:
+            conf = confirm(patch, os.path.join(d, "demo.py"))
+            rec["still_breaks_demo"] = conf["demo_with_change_exit"] != 0 and \
+                conf["demo_without_change_exit"] == 0
+            rec["tests_with_change"] = conf["tests_with_change"]
+            det = detect(patch, meta["breaks_property"])
+            rec["detected"] = det["detected"]
+            rec["signatures"] = det["signatures"][:3]
+            rec["wall_s"] = det["wall_s"]
+        meta["recheck"] = rec
+        json.dump(meta, open(mp, "w"), indent=1)
+        print(sid, json.dumps(rec)[:300], flush=True)
+
+
 def main(argv):
+    if argv[0] == "recheck":
+        return recheck(argv[1:] or None)
     if argv[0] == "confirm":
         print(json.dumps(confirm(argv[1], argv[2]), indent=1))
     elif argv[0] == "detect":
